@@ -632,6 +632,10 @@ class Referable(HasExtension, metaclass=abc.ABCMeta):
                     if isinstance(item.parent, SubmodelElementList):
                         reversed_path.append(f"{item.parent.id_short}[{item.parent.value.index(item)}]")
                         item = item.parent
+                    elif item.id_short is None:
+                        # an ancestor without id_short (e.g. a SubmodelElementList item that is not attached to its
+                        # list yet) ends the path
+                        break
                     else:
                         reversed_path.append(item.id_short)
                     item = item.parent
